@@ -1,6 +1,7 @@
 ------------------------------- MODULE WireMon -------------------------------
-(* Monitor for the wire part of C02: evaluates WireDefs!HoldsShape/HoldsBatch *)
-(* clause by clause on outcomes recorded from the real server.                *)
+(* Monitor for the wire part of C01/C02/C03: evaluates the clauses of         *)
+(* WireDefs (shapes, batches, reply framings) one by one on outcomes recorded *)
+(* from the real server / client sessions.                                    *)
 EXTENDS VerifTrace, FiniteSets
 W == INSTANCE WireDefs
 VARIABLE l
@@ -8,30 +9,40 @@ MInit == l = 1 /\ MarkInit
 
 ShapeC(e) == [t |-> "shape", era |-> e.c.era, method |-> e.c.method, hasId |-> e.c.hasId, idc |-> e.c.idc, params |-> e.c.params]
 ShapeO(e) == [count |-> e.count, otherResp |-> e.otherResp, lines |-> e.lines, code |-> e.code, alive |-> e.alive, panic |-> e.panic]
-BatchC(e) == [t |-> "batch", era |-> e.c.era, members |-> e.c.members, order |-> e.c.order]
+BatchC(e) == [t |-> "batch", era |-> e.c.era, members |-> e.c.members, order |-> e.c.order, reuse |-> e.c.reuse]
 BatchO(e) == [alive |-> e.alive, flushes |-> Len(e.flushes),
               flushAfter |-> IF Len(e.flushes) > 0 THEN e.flushes[1].after ELSE 0,
               flushSize |-> IF Len(e.flushes) > 0 THEN Len(e.flushes[1].ids) ELSE 0,
               singles |-> e.singles, premature |-> e.premature, panic |-> e.panic, reuseOk |-> e.reuseOk, handled |-> e.handled]
 
+FrameC(e) == [t |-> "framing", side |-> e.c.side, ncalls |-> e.c.ncalls, frames |-> e.c.frames]
+FrameO(e) == [outcome |-> e.outcome, qAnswers |-> e.qAnswers, qOther |-> e.qOther, alive |-> e.alive, panic |-> e.panic]
+\* what the harness saw of the delivery, in the shape of W!ExpectedFraming
+FrameSeen(e) == [outcome |-> e.outcome, doneAfter |-> [i \in DOMAIN e.doneAfter |-> AsSet(e.doneAfter[i])],
+                 notifs |-> e.notifs, qAnswers |-> e.qAnswers, qOther |-> e.qOther, alive |-> e.alive]
+
 CheckAll(cl, pre) == \A k \in DOMAIN cl : Check(l, pre \o k, cl[k])
 
 HShapeC(e) == [t |-> "httpshape", era |-> e.c.era, method |-> e.c.method, hasId |-> e.c.hasId, idc |-> e.c.idc, params |-> e.c.params, json |-> e.c.json]
-HShapeO(e) == [count |-> e.count, otherResp |-> e.otherResp, lines |-> e.lines, code |-> e.code, alive |-> e.alive, panic |-> e.panic, status |-> e.status]
+HShapeO(e) == [count |-> e.count, otherResp |-> e.otherResp, lines |-> e.lines, code |-> e.code, alive |-> e.alive, panic |-> e.panic, status |-> e.status, hung |-> e.hung]
 HBatchC(e) == [t |-> "httpbatch", era |-> e.c.era, members |-> e.c.members, json |-> e.c.json]
-HBatchO(e) == [alive |-> e.alive, panic |-> e.panic, status |-> e.status, answered |-> e.answered, reuseOk |-> e.reuseOk]
+HBatchO(e) == [alive |-> e.alive, panic |-> e.panic, status |-> e.status, answered |-> e.answered, reuseOk |-> e.reuseOk, hung |-> e.hung]
 
 MNext == /\ l <= NLines /\ l' = l + 1
          /\ LET e == TraceLog[l] IN
               IF e.c.t = "httpshape" THEN CheckAll(W!HttpShapeClauses(HShapeC(e), HShapeO(e)), "Http")
               ELSE IF e.c.t = "httpbatch" THEN CheckAll(W!HttpBatchClauses(HBatchC(e), HBatchO(e)), "Http")
+              ELSE IF e.c.t = "framing"
+              THEN /\ CheckAll(W!FramingClauses(FrameC(e), FrameO(e)), "")
+                   /\ Check(l, "drift", FrameSeen(e) = W!ExpectedFraming(FrameC(e)))
               ELSE IF e.c.t = "shape"
               THEN /\ CheckAll(W!ShapeClauses(ShapeC(e), ShapeO(e)), "")
                    /\ Check(l, "drift", [count |-> e.count, otherResp |-> e.otherResp, lines |-> e.lines,
                                          code |-> IF e.count = 1 THEN e.code ELSE 0, alive |-> e.alive] = W!ExpectedShape(ShapeC(e)))
               ELSE /\ CheckAll(W!BatchClauses(BatchC(e), BatchO(e)), "")
                    /\ Check(l, "drift", [alive |-> e.alive, flushes |-> BatchO(e).flushes, flushAfter |-> BatchO(e).flushAfter,
-                                         flushSize |-> BatchO(e).flushSize, singles |-> e.singles, premature |-> e.premature]
+                                         flushSize |-> BatchO(e).flushSize, singles |-> e.singles, premature |-> e.premature,
+                                         reuseOk |-> W!ExpectedBatch(BatchC(e)).reuseOk]   \* (judged by BatchIdsReusable)
                                         = W!ExpectedBatch(BatchC(e)))
 MSpec == MInit /\ [][MNext]_l
 MMark == MarkAt(l)
